@@ -1,0 +1,22 @@
+//go:build !verif
+
+// Package verifhook holds off-by-default observation hooks used by the
+// runtime-monitoring harness in /verif. Without the build tag "verif" every
+// function is an empty stub.
+package verifhook
+
+const (
+	SiteLexEmoves = iota
+	SiteLexItemListClosure
+	SiteLexDependentsClosure
+	SiteLexItemSetsClosure
+	SiteFirstSets
+	SiteLR1Closure
+	SiteLR1ItemSets
+)
+
+func Step(site int) {}
+
+func Classes(expected [][2]rune, classes [][2]rune) {}
+
+func Flush() {}
